@@ -358,3 +358,26 @@ func (x *Ctx) nilEmbedClass(p interface{}) string {
 	walk(reflect.ValueOf(p).Elem(), x.Root)
 	return cls
 }
+
+// embedTypeClass is the static class of the root type relevant to CopyFrom
+// panics: whether some nullable embed has collection or message children.
+func (x *Ctx) embedTypeClass() string {
+	cls := "no-nullable-embed"
+	var walk func(ms *spec.Msg)
+	walk = func(ms *spec.Msg) {
+		for _, a := range ms.Attrs {
+			if a.InEmbedPtr() {
+				if a.Kind != spec.KScalar && a.Kind != spec.KCustom {
+					cls = "type-has-nullable-embed-with-collection-or-message-child"
+				} else if cls == "no-nullable-embed" {
+					cls = "type-has-nullable-embed"
+				}
+			}
+			if a.Msg != nil {
+				walk(a.Msg)
+			}
+		}
+	}
+	walk(x.Root)
+	return cls
+}
